@@ -53,13 +53,15 @@ func (b *ProcessLogBuffer) GetLogRange(offsetFromEnd, limit int) []string {
 	if limit > len(b.buffer) {
 		limit = len(b.buffer)
 	}
-	if offsetFromEnd+limit > len(b.buffer) {
-		limit = len(b.buffer) - offsetFromEnd
+	if limit > offsetFromEnd {
+		// the window starts offsetFromEnd lines before the end: no more lines exist
+		limit = offsetFromEnd
 	}
 	if limit == 0 {
 		return b.buffer[len(b.buffer)-offsetFromEnd:]
 	}
-	return b.buffer[len(b.buffer)-offsetFromEnd : offsetFromEnd+limit]
+	start := len(b.buffer) - offsetFromEnd
+	return b.buffer[start : start+limit]
 }
 
 func (b *ProcessLogBuffer) GetLogLength() int {
